@@ -25,6 +25,15 @@ D_PROBE(p_dprintf, DPRINTF) D_PROBE(p_dprintf1, DPRINTF1) D_PROBE(p_dprintf2, DP
 D_PROBE(p_dprintf6, DPRINTF6) D_PROBE(p_dprintf7, DPRINTF7) D_PROBE(p_dprintf8, DPRINTF8) D_PROBE(p_dprintf9, DPRINTF9)
 /* a D_* statement is one statement: as the un-braced arm of an if it leaves the else to that if */
 static volatile int g_cond;
+/* a statement macro as the unbraced body of an if that has an else: the else belongs to the caller's if, whatever the macro expands to in this build */
+static void f_if_require(int outer) { g_cond = outer; if (g_cond) REQUIRE(g_cond == outer); else R->elses++; R->continued = 1; }
+static int f_if_require_rval(int outer) { g_cond = outer; if (g_cond) REQUIRE_RVAL(g_cond == outer, 43); else R->elses++; R->continued = 1; return 7; }
+static void f_if_assert(int outer) { g_cond = outer; if (g_cond) ASSERT(g_cond == outer); else R->elses++; R->continued = 1; }
+static int f_if_assert_rval(int outer) { g_cond = outer; if (g_cond) ASSERT_RVAL(g_cond == outer, 41); else R->elses++; R->continued = 1; return 7; }
+static void p_if_require_t(void) { f_if_require(1); } static void p_if_require_f(void) { f_if_require(0); }
+static void p_if_require_rval_t(void) { R->ret = f_if_require_rval(1); } static void p_if_require_rval_f(void) { R->ret = f_if_require_rval(0); }
+static void p_if_assert_t(void) { f_if_assert(1); } static void p_if_assert_f(void) { f_if_assert(0); }
+static void p_if_assert_rval_t(void) { R->ret = f_if_assert_rval(1); } static void p_if_assert_rval_f(void) { R->ret = f_if_assert_rval(0); }
 static void p_d_if_true(void) { g_cond = 1; if (g_cond) D_CONF(("probe %d\n", bump())); else R->elses++; R->continued = 1; }
 static void p_d_if_false(void) { g_cond = 0; if (g_cond) D_CONF(("probe %d\n", bump())); else R->elses++; R->continued = 1; }
 static void f_assert(int c) { ASSERT(c ? 1 : (bump(), 0)); R->continued = 1; }
@@ -67,6 +76,10 @@ static const probe_t PROBES[] = {
     { "ASSERT_RVAL(false,41) on a condition containing \"100%%\"", p_assert_pct, G_ASSERT_RVAL_F, 41, 0 }, { "REQUIRE_RVAL(false,43) on a condition containing \"100%%\"", p_require_pct, G_REQUIRE_RVAL_F, 43, 0 },
     { "ASSERT(false) on a condition containing \"100%%\"", p_assert_pct_v, G_ASSERT_F, 0, 0 }, { "REQUIRE(false) on a condition containing \"100%%\"", p_require_pct_v, G_REQUIRE_F, 0, 0 },
     { "if (true) D_CONF(...); else counter++;", p_d_if_true, G_DLEVEL, 3, 0 }, { "if (false) D_CONF(...); else counter++;", p_d_if_false, G_NEVER, 0, 0 },
+    { "if (true) REQUIRE(true); else counter++;", p_if_require_t, G_REQUIRE_T, 0, 0 }, { "if (false) REQUIRE(true); else counter++;", p_if_require_f, G_REQUIRE_T, 0, 0 },
+    { "if (true) REQUIRE_RVAL(true, 43); else counter++;", p_if_require_rval_t, G_REQUIRE_T, 0, 0 }, { "if (false) REQUIRE_RVAL(true, 43); else counter++;", p_if_require_rval_f, G_REQUIRE_T, 0, 0 },
+    { "if (true) ASSERT(true); else counter++;", p_if_assert_t, G_ASSERT_T, 0, 0 }, { "if (false) ASSERT(true); else counter++;", p_if_assert_f, G_ASSERT_T, 0, 0 },
+    { "if (true) ASSERT_RVAL(true, 41); else counter++;", p_if_assert_rval_t, G_ASSERT_T, 0, 0 }, { "if (false) ASSERT_RVAL(true, 41); else counter++;", p_if_assert_rval_f, G_ASSERT_T, 0, 0 },
     { "libast_dprintf", p_prim_dprintf, G_PRIM, 0, 0 }, { "libast_print_warning", p_prim_warning, G_PRIM, 0, 0 }, { "libast_print_error", p_prim_error, G_PRIM, 0, 0 },
     { "D_CONF in spiftool_version_compare", p_lib_conf, G_LIB, 3, 1 }, { "D_OPTIONS in spifopt_parse", p_lib_options, G_LIB, 1, 1 }, { "D_OBJ in spif_mbuff_init_from_fp", p_lib_obj, G_LIB, 2, 1 }, { "D_MEM in spifmem_malloc", p_lib_mem, G_LIB, 5, 1 },
 };
@@ -147,7 +160,7 @@ static void g_case(uint64_t idx, void *ctx)
         if (check_out && (total > 0) != want_out) FAIL(site, want_out ? "model:no-output" : "model:unexpected-output", shape, "%ld bytes written to stderr, expected %s: %.120s", total, want_out ? "output" : "silence", err);
         if (check_out && total > 0 && (p->fn == p_prim_warning || p->fn == p_prim_error) && strncmp(err, "libast:", 7)) FAIL(site, "model:program-name", shape, "the message does not start with the program name \"libast:\": %.80s", err);
         if (check_out && strstr(p->name, "100%") && strstr(err, "100%") && !strstr(err, "100%%")) FAIL(site, "model:diagnostic-garbled", shape, "the condition's text was used as a format: %.160s", err);
-        if (!strncmp(p->name, "if (", 4) && r.elses != (p->fn == p_d_if_false ? 1 : 0)) FAIL(site, "model:control-flow", shape, "the else arm ran %d times with the condition %s", r.elses, p->fn == p_d_if_false ? "false" : "true");
+        if (!strncmp(p->name, "if (", 4) && r.elses != (!strncmp(p->name, "if (false)", 10) ? 1 : 0)) FAIL(site, "model:control-flow", shape, "the else arm of the caller's if ran %d times with its condition %s", r.elses, !strncmp(p->name, "if (false)", 10) ? "false" : "true");
         if (p->gate >= G_ASSERT_T && p->gate <= G_REQUIRE_RVAL_F) {
             if (r.continued != want_cont) FAIL(site, "model:control-flow", shape, "the function %s after the statement, expected it to %s", r.continued ? "continued" : "returned", want_cont ? "continue" : "return");
             if (want_ret >= 0 && r.ret != want_ret) FAIL(site, "model:return-value", shape, "returned %d, expected %d", r.ret, want_ret);
